@@ -37,6 +37,8 @@ type Engine struct {
 	specFiles      []*SpecFile
 	loadErrs       []string
 	axiomTerms     []axiomTerm
+	guardIdx       map[string]*guardDecl
+	guardByField   map[string]*guardDecl
 }
 
 type axiomTerm struct {
@@ -58,7 +60,7 @@ func (e *Engine) cfgOf(fn *ssa.Function) *cfgInfo {
 func LoadEngine(repo string, trustedDir string, patterns []string) (*Engine, error) {
 	e := &Engine{repo: repo, pkgByName: map[string]*types.Package{}, pkgByPath: map[string]*types.Package{}, funcs: map[string]*ssa.Function{},
 		contracts: map[string]*Contract{}, ifaceContracts: map[string]*Contract{}, functypes: map[string]*Contract{}, contractPkg: map[*Contract]*types.Package{},
-		specs: map[string]*SpecFunc{}, ghostFields: map[string]*GhostField{}, consts: map[string]*big.Int{}, cfgs: map[*ssa.Function]*cfgInfo{}}
+		specs: map[string]*SpecFunc{}, ghostFields: map[string]*GhostField{}, consts: map[string]*big.Int{}, cfgs: map[*ssa.Function]*cfgInfo{}, guardByField: map[string]*guardDecl{}}
 	cfg := &packages.Config{Mode: packages.LoadAllSyntax, Dir: repo, BuildFlags: []string{"-tags=verif"},
 		Env: append(os.Environ(), "GOFLAGS=-mod=mod", "GOPROXY=off", "GOSUMDB=off", "GOTOOLCHAIN=local")}
 	pkgs, err := packages.Load(cfg, patterns...)
@@ -185,6 +187,7 @@ func (e *Engine) newCtx(fn *ssa.Function, ct *Contract) *FnCtx {
 
 func (e *Engine) VerifyFunction(fn *ssa.Function, ct *Contract) (c *FnCtx) {
 	c = e.newCtx(fn, ct)
+	lateDef = func(t *Term) { c.addDef(t) }
 	defer func() {
 		if r := recover(); r != nil {
 			if ee, ok := r.(evalError); ok {
